@@ -137,6 +137,18 @@ def x_two_runs(ctx, case):
     return True
 
 
+def _feed(ctx, consumer, events, who):
+    """status() for each event; an exception on a well-formed event is the consumer's fault, not the harness'."""
+    for e in events:
+        try:
+            consumer.status(**ev_kwargs(e))
+        except Exception as exc:  # noqa
+            ctx.check(False, "consumer.accepts-every-event",
+                      lambda: {"consumer": who, "event": e, "error": repr(exc), "events": events})
+        else:
+            ctx.count("mon:consumer.accepts-every-event")
+
+
 def x_seq(ctx, case):
     import testtools
     events = case["events"]
@@ -146,8 +158,7 @@ def x_seq(ctx, case):
     got = []
     s = testtools.StreamToDict(lambda d: got.append(canon_dict(d)))
     s.startTestRun()
-    for e in events:
-        s.status(**ev_kwargs(e))
+    _feed(ctx, s, events, "StreamToDict")
     n_fin = len(got)
     s.stopTestRun()
     ctx.check(got[:n_fin] == [canon_model(r) for r in fin], "dict.finals-in-order",
@@ -158,8 +169,7 @@ def x_seq(ctx, case):
     # ---- StreamSummary --------------------------------------------------------------------
     ss = testtools.StreamSummary()
     ss.startTestRun()
-    for e in events:
-        ss.status(**ev_kwargs(e))
+    _feed(ctx, ss, events, "StreamSummary")
     ss.stopTestRun()
     allr = fin + rest
     counted = [r for r in allr if r["status"] != "exists"]
@@ -186,8 +196,7 @@ def x_seq(ctx, case):
     log = recorders.Log()
     d = testtools.StreamToExtendedDecorator(recorders.ExtRecorder(log))
     d.startTestRun()
-    for e in events:
-        d.status(**ev_kwargs(e))
+    _feed(ctx, d, events, "StreamToExtendedDecorator")
     n_before_stop = len(log.events)
     d.stopTestRun()
 
@@ -289,6 +298,25 @@ def run(ctx):
                 n += 1
                 ctx.execute("seq", {"events": [syms[i] for i in seq]}, sample=(n % 997 == 0))
     ctx.note_space("all event sequences of length <= %d over a %d-symbol alphabet" % (maxlen, len(syms)), n)
+    # a text attachment that arrives in chunks splitting a multi-byte character (a non-ASCII reason or traceback
+    # streamed in pieces): the consumers that render it (StreamSummary) still account for the test
+    n = 0
+    for st in ("skip", "fail", "xfail", "success", "uxsuccess", None):
+        for fn in ("reason", "traceback", "log"):
+            for tail in ([], [{"id": "b", "st": "success"}]):
+                if not ctx.mine():
+                    continue
+                n += 1
+                ev = [{"id": "a", "st": "inprogress", "ts": 1},
+                      {"id": "a", "st": None, "fn": fn, "fb": "636166c3", "mt": 1},
+                      {"id": "b", "st": "inprogress"} if tail else {"id": "a", "st": None, "tags": ["x"]},
+                      {"id": "a", "st": None, "fn": fn, "fb": "a920e298", "mt": 1},
+                      {"id": "a", "st": None, "fn": fn, "fb": "83", "mt": 1, "eof": True}]
+                if st is not None:
+                    ev.append({"id": "a", "st": st, "ts": 2})
+                ctx.execute("seq", {"events": ev + tail})
+    ctx.note_space("a UTF-8 text attachment streamed in chunks that split multi-byte characters: 6 final statuses x 3 "
+                   "names x interleaved or not", n)
     ctx.notes["random_cases"] = True
     for i in range(ctx.scale(6000, 400000)):
         if ctx.out_of_time():
